@@ -278,6 +278,37 @@ def atom_pair_histories(tier):
     return out
 
 
+def _build_marathon(k, n_ops):
+    """One very long fault-free history: thousands of operations in one process, walking the probes, atoms and same-key
+    families under rotating renderers, alternating one long-lived instance with separate calls. Reaches whatever only
+    changes after the N-th use (size-limited caches that start evicting, counters, 'first time' flags)."""
+    docs = [D.PROBES[n] for n in _PROBE_NAMES] + [D.ATOM_PROBES[n] for n in _ATOM_NAMES] + \
+           [d for f in sorted(D.SAMEKEY_FAMILIES) for d in D.SAMEKEY_FAMILIES[f]]
+    history = []
+    i = k * 7919
+    done = 0
+    block = 0
+    while done < n_ops:
+        rid = W.RENDERER_IDS[(k + block) % len(W.RENDERER_IDS)]
+        opts = W.OPTIONS[rid][(k + block // len(W.RENDERER_IDS)) % len(W.OPTIONS[rid])]
+        chunk = [docs[(i + j * (1 + block % 5)) % len(docs)] for j in range(60)]
+        i += 61
+        if block % 3 == 2:
+            history += [{'k': 'MD', 'R': rid, 'opts': opts, 'doc': d} for d in chunk[:20]]
+            done += 20
+        else:
+            history.append({'k': 'CTX', 'R': rid, 'opts': opts, 'exit': 'normal', 'steps': [{'k': 'RENDER', 'doc': d} for d in chunk]})
+            done += 60
+        block += 1
+    return history
+
+
+def marathon_histories(tier):
+    import functools
+    n, ops = (16, 20000) if tier == 'thorough' else (4, 3000)
+    return [('marathon', functools.partial(_build_marathon, k, ops)) for k in range(n)]
+
+
 def samekey_histories(tier):
     """Every ordered pair inside each 'same key, different truth' family, under every renderer (thorough: every option set),
     by one instance and by separate calls."""
